@@ -1,4 +1,5 @@
 import Octo.Lemmas.JsonPipeProgress
+import Octo.Model.JsonPipeSkeleton
 /-!
 # C29 — protocol-level part: the JSON datasource pipeline neither deadlocks nor runs for ever
 
@@ -9,6 +10,19 @@ Data races (Go memory model) are outside this model — see notes/C29.md.
 -/
 namespace Octo.C29
 open Octo.JsonPipe
+
+/-- **Tie to the source text (1).** The communication skeleton regenerated from the current
+`datasources/json/execution.go` / `workers.go` is the one the model was written for. -/
+theorem skeleton_matches :
+    Octo.Gen.JsonPipe.runSkeleton = expectedRunSkeleton ∧ Octo.Gen.JsonPipe.workerSkeleton = expectedWorkerSkeleton :=
+  ⟨rfl, rfl⟩
+
+/-- **Tie to the source text (2).** What the proofs need of the capacities found in the sources: there are at most
+as many tokens as `outChan` has room (this is what makes `worker_never_blocks` true), the `done` channel has room
+for the reader's single send, and the job channel has room for a single datasource's tokens. -/
+theorem capacities_ok :
+    tokCap ≤ outCap ∧ 0 < tokCap ∧ 0 < jobCap ∧ tokCap ≤ jobCap ∧ 1 ≤ Octo.Gen.JsonPipe.doneCap ∧
+    1 ≤ Octo.Gen.JsonPipe.batchSize ∧ 1 ≤ Octo.Gen.JsonPipe.tailBatchSize := by decide
 
 /-- **Token invariant.** In every reachable state, for every running datasource: every job between the reader's
 token acquisition and the consumer's token release, and every batch waiting in `outChan`, holds a token; there
